@@ -56,8 +56,8 @@ Lemma c03_timeout_family : forall c, In c family -> forall sched, Forall allowed
   parked s = true -> no_defect s = true -> c_oneway c = false ->
   global_armed s = true \/ exists k, try_armed s = Some k.
 Proof.
-  intros c Hc sched Hs s Hp Hd Ho. fam_conj c sched Hc Hs. unfold good_timeout in G4. cbn [i_st i_gs summary_of] in G4.
-  apply andb_prop in G4 as [T1 T2]. fold (final src_tree c sched) in T1. fold s in T1.
+  intros c Hc sched Hs s Hp Hd Ho. fam_conj c sched Hc Hs. unfold good_timeout in G5. cbn [i_st i_gs summary_of] in G5.
+  apply andb_prop in G5 as [T1 T2]. fold (final src_tree c sched) in T1. fold s in T1.
   impl_elim T1 ltac:(rewrite Hp, Hd, Ho; reflexivity).
   apply orb_prop in T1 as [T1|T1]; [now left|right]. destruct (try_armed s) as [k|]; [now exists k|discriminate].
 Qed.
@@ -67,14 +67,14 @@ Lemma c03_timeout_reply_family : forall c, In c family -> forall sched, Forall a
   let s := final src_tree c sched in
   parked s = true -> global_armed s = true -> received s = false -> down_reset s = false -> up_reset s = false ->
   direct s = false -> has_upreq s = true -> c_send c = [] ->
-  let '(s1, o1) := env_step c EvGlobal s in
+  let '(s1, o1) := env_step src_tree c EvGlobal s in
   let '(s2, g2) := run_worker_n src_tree c 40 (s1, gs_outs (summ src_tree c sched) o1) in
   wdone s2 = true /\ cleaned s2 = true /\ g_ended g2 = true /\ g_reply_kind g2 = Some (KHijack, 504).
 Proof.
-  intros c Hc sched Hs s Hp Hg Hr Hdr Hur Hdi Hu Hsf. fam_conj c sched Hc Hs. unfold good_timeout in G4.
-  cbn [i_st i_gs summary_of] in G4. apply andb_prop in G4 as [T1 T2]. fold (final src_tree c sched) in T2. fold s in T2.
+  intros c Hc sched Hs s Hp Hg Hr Hdr Hur Hdi Hu Hsf. fam_conj c sched Hc Hs. unfold good_timeout in G5.
+  cbn [i_st i_gs summary_of] in G5. apply andb_prop in G5 as [T1 T2]. fold (final src_tree c sched) in T2. fold s in T2.
   impl_elim T2 ltac:(rewrite Hp, Hg, Hr, Hdr, Hur, Hdi, Hu, Hsf; reflexivity).
-  unfold summ, trace. destruct (env_step c EvGlobal s) as [s1 o1].
+  unfold summ, trace. destruct (env_step src_tree c EvGlobal s) as [s1 o1].
   destruct (run_worker_n src_tree c 40 (s1, gs_outs (gs_outs gs0 (snd (run src_tree c (init_st 0) sched))) o1)) as [s2 g2].
   repeat match type of T2 with (_ && _) = true => let H2 := fresh "J" in apply andb_prop in T2 as [T2 H2] end.
   repeat split; auto.
@@ -89,9 +89,9 @@ Lemma c10_gauge_family : forall c, In c family -> forall sched, Forall allowed s
   (g_gauge g = 0 \/ g_gauge g = -1) /\ (cleaned s = true <-> g_gauge g = -1) /\
   (quiescent s = true -> no_defect s = true -> 1 + g_gauge g = 0).
 Proof.
-  intros c Hc sched Hs s g. fam_conj c sched Hc Hs. unfold good_c10_gauge in G3. cbn [i_st i_gs summary_of] in G3.
-  fold (final src_tree c sched) in G3. fold s in G3. fold (trace src_tree c sched) in G3. fold (summ src_tree c sched) in G3. fold g in G3.
-  apply andb_prop in G3 as [G3 Q]. apply andb_prop in G3 as [V E].
+  intros c Hc sched Hs s g. fam_conj c sched Hc Hs. unfold good_c10_gauge in G4. cbn [i_st i_gs summary_of] in G4.
+  fold (final src_tree c sched) in G4. fold s in G4. fold (trace src_tree c sched) in G4. fold (summ src_tree c sched) in G4. fold g in G4.
+  apply andb_prop in G4 as [G4 Q]. apply andb_prop in G4 as [V E].
   apply orb_prop in V. apply Bool.eqb_prop in E. split; [|split].
   - destruct V as [V|V]; apply Z.eqb_eq in V; auto.
   - rewrite E. apply Z.eqb_eq.
@@ -103,10 +103,10 @@ Lemma c10_res_family : forall c, In c family -> forall sched, Forall allowed sch
   0 <= g_res_min g /\ g_res g <= 1 /\ rc s = g_res g /\ (cleaned s = true -> g_res g = 0) /\
   (c_max_retries c <> 0 -> (reserved s = true <-> g_res g = 1)).
 Proof.
-  intros c Hc sched Hs s g. fam_conj c sched Hc Hs. unfold good_c10_res in G2. cbn [i_st i_gs summary_of] in G2.
-  fold (final src_tree c sched) in G2. fold s in G2. fold (trace src_tree c sched) in G2. fold (summ src_tree c sched) in G2. fold g in G2.
-  repeat match type of G2 with (_ && _) = true => let H2 := fresh "J" in apply andb_prop in G2 as [G2 H2] end.
-  apply Z.leb_le in G2. apply Z.leb_le in J2. apply Z.eqb_eq in J1. repeat split; auto.
+  intros c Hc sched Hs s g. fam_conj c sched Hc Hs. unfold good_c10_res in G3. cbn [i_st i_gs summary_of] in G3.
+  fold (final src_tree c sched) in G3. fold s in G3. fold (trace src_tree c sched) in G3. fold (summ src_tree c sched) in G3. fold g in G3.
+  repeat match type of G3 with (_ && _) = true => let H2 := fresh "J" in apply andb_prop in G3 as [G3 H2] end.
+  apply Z.leb_le in G3. apply Z.leb_le in J2. apply Z.eqb_eq in J1. repeat split; auto.
   - intros Hcl. impl_elim J ltac:(assumption). now apply Z.eqb_eq.
   - intros Hr. destruct (c_max_retries c =? 0) eqn:E; [apply Z.eqb_eq in E; contradiction|].
     apply Bool.eqb_prop in J0. rewrite J0 in Hr. now apply Z.eqb_eq.
@@ -152,12 +152,24 @@ Qed.
 (* ---------- C17 (retry part) ---------- *)
 Lemma c17_retry_family : forall c, In c family -> forall sched, Forall allowed sched ->
   let g := summ src_tree c sched in
-  (g_new g <= 1 + budget src_tree c)%nat /\ g_new_after_start g = false /\ g_new_unchosen g = false.
+  (g_new g <= 1 + budget src_tree c)%nat /\ g_new_after_start g = false /\ g_new_unchosen g = false /\ g_fin_bad g = false.
 Proof.
   intros c Hc sched Hs g. fam_conj c sched Hc Hs. unfold good_c17 in G. cbn [i_st i_gs summary_of] in G.
   fold (trace src_tree c sched) in G. fold (summ src_tree c sched) in G. fold g in G.
-  apply andb_prop in G as [G U]. apply andb_prop in G as [B A].
-  apply Nat.leb_le in B. apply negb_true_iff in A. apply negb_true_iff in U. auto.
+  apply andb_prop in G as [G F]. apply andb_prop in G as [G U]. apply andb_prop in G as [B A].
+  apply Nat.leb_le in B. apply negb_true_iff in A. apply negb_true_iff in U. apply negb_true_iff in F. auto.
+Qed.
+
+(* C10: upstream streams *)
+Lemma c10_streams_family : forall c, In c family -> forall sched, Forall allowed sched ->
+  let s := final src_tree c sched in let g := summ src_tree c sched in
+  g_leak g = false /\
+  (wdone s = true -> cleaned s = true -> existsb is_terminate sched = false -> c_oneway c = false -> up_alive s = false).
+Proof.
+  intros c Hc sched Hs s g. fam_conj c sched Hc Hs. unfold good_c10_streams in G2. cbn [i_st i_gs i_tm summary_of] in G2.
+  fold (final src_tree c sched) in G2. fold s in G2. fold (trace src_tree c sched) in G2. fold (summ src_tree c sched) in G2. fold g in G2.
+  apply andb_prop in G2 as [L Q]. apply negb_true_iff in L. split; auto.
+  intros Hw Hcl Ht Ho. impl_elim Q ltac:(rewrite Hw, Hcl, Ht, Ho; reflexivity). now apply negb_true_iff in Q.
 Qed.
 
 (* ---------- refutations of the full statements (witnesses of Proofs/ProxyRefute.v) ---------- *)
@@ -183,10 +195,10 @@ Proof.
   pose proof (outcome_ok_of cfg_nog drive src_tree Hq (H cfg_nog drive Hq)) as K.
   rewrite K in Hbad. exact (Bool.diff_true_false Hbad).
 Qed.
-Lemma refuted_upf : ~ outcome_statement src_tree.
+Lemma refuted_upf : ~ outcome_statement src_no_direct_reset.
 Proof.
   intros H. destruct witness_upf as (Hq & _ & _ & _ & _ & Hbad).
-  pose proof (outcome_ok_of cfg_upf sched_upf src_tree Hq (H cfg_upf sched_upf Hq)) as K.
+  pose proof (outcome_ok_of cfg_upf sched_upf src_no_direct_reset Hq (H cfg_upf sched_upf Hq)) as K.
   rewrite K in Hbad. exact (Bool.diff_true_false Hbad).
 Qed.
 
